@@ -34,7 +34,7 @@ FUNCTIONS = ['codegen_add', 'codegen_sub', 'codegen_neg', 'codegen_involutions',
              'do_codegen', 'lambdify/func_builder', 'generated add_/sub_/neg_/reverse_/involute_/conjugate_ functions']
 ASSUMPTIONS = ['coefficients are reals; patterns/configurations enumerated, coefficient values symbolic',
                'Engine B: blade index symbolic below 2^W; `bin` inside kingdon.codegen replaced by a popcount shim for that harness']
-BOUNDS = {'quick': 'd<=2 all ordered pattern pairs, d=3 sampled subsets/grade unions, d=4,5 random sparse, d=7,8 random sparse; all grade selections; Engine B W=12; forms kind (numbers on either side, register in both modes, operands built through every key container, grade selections in any order); twin algebras',
+BOUNDS = {'quick': 'd<=2 all ordered pattern pairs, d=3 sampled subsets/grade unions, d=4,5 random sparse, d=7,8 random sparse; all grade selections; Engine B W=12; forms kind (numbers on either side, register in both modes, operands built through every key container, grade selections in any order); twin algebras; grade selections with repeated grades, also longer than d + 1 entries',
           'thorough': 'larger samples, d=3 all subsets for unary parts, Engine B W=16'}
 OUTSIDE = ['d > 8', 'floating-point rounding']
 OPTS = {'rlimit': 80_000_000, 'canary_every': 20}
